@@ -387,26 +387,36 @@ class Inventory:
                 alts.append(val)
                 return True
             return False
-        # only the definitions in the same branch body as the compile call are relevant
-        stmt = call
-        while not isinstance(mod.parents.get(stmt), (ast.If, ast.FunctionDef, ast.For, ast.While, ast.Try)):
-            stmt = mod.parents[stmt]
-        body = None
-        par = mod.parents[stmt]
-        for fld in ('body', 'orelse'):
-            if stmt in getattr(par, fld, []):
-                body = getattr(par, fld)
-        if body is None:
-            return None
+        # the definition that reaches the call: the closest preceding assignment in the enclosing blocks, provided no
+        # statement in between assigns the name conditionally
+        cur: ast.AST = call
         found = False
-        for st in body[:body.index(stmt)]:
-            if isinstance(st, ast.Assign) and len(st.targets) == 1 and isinstance(st.targets[0], ast.Name) \
-                    and st.targets[0].id == var:
-                alts.clear()
-                if not add(st.value):
+        while not found:
+            while not isinstance(cur, ast.stmt):
+                cur = mod.parents[cur]
+            par = mod.parents.get(cur)
+            if par is None or isinstance(cur, (ast.FunctionDef, ast.AsyncFunctionDef)):
+                return None
+            body = None
+            for fld in ('body', 'orelse', 'finalbody'):
+                if cur in getattr(par, fld, []):
+                    body = getattr(par, fld)
+            if body is None or isinstance(par, (ast.For, ast.While)):
+                # handlers, loops: a definition may arrive around the back edge
+                if isinstance(par, (ast.For, ast.While)) and any(
+                        isinstance(x, ast.Name) and x.id == var and isinstance(x.ctx, ast.Store) for x in ast.walk(par)):
                     return None
-                found = True
-        if not found:
-            return None
+                if body is None:
+                    return None
+            for st in reversed(body[:body.index(cur)]):
+                if isinstance(st, ast.Assign) and len(st.targets) == 1 and isinstance(st.targets[0], ast.Name) \
+                        and st.targets[0].id == var:
+                    if not add(st.value):
+                        return None
+                    found = True
+                    break
+                if any(isinstance(x, ast.Name) and x.id == var and isinstance(x.ctx, ast.Store) for x in ast.walk(st)):
+                    return None
+            cur = par
         a, b = fmt.split('%s')
         return [(a, v, b) if isinstance(v, Opaque) else (a + v + b,) for v in alts]
